@@ -225,6 +225,11 @@ def exec_op(sess, op, index=0):
                 if op.get('solver'):
                     o = o.EquationSolver
                 setattr(o, op['attr'], op['value'] if op.get('ref') is None else H.get(op['ref']))
+            elif name == 'SetGoldPurchases':
+                if not need('gold', 'sector'):
+                    return 'noop'
+                # public method of the external sector's gold market: books the purchases at construction time
+                H[op['gold']].SetGoldPurchases(H[op['sector']], op['var'], op.get('initial_stock', 0.0))
             elif name == 'LogInfo':
                 if not need('model'):
                     return 'noop'
